@@ -40,6 +40,8 @@ func caseEdges(fn *ssa.Function, tag eng.VM, k *types.Const) []eng.Edge {
 }
 
 func runC10(c *eng.Ctx) {
+	c.Rule("R10.10", "K2")
+	ruleEmptinessIsReadAfterTheLogEnd(c)
 	c.Rule("R10.10", "K1")
 	ruleStopOnAnEmptiedLogEnds(c)
 	c.Rule("R08.6", "K4")
